@@ -398,6 +398,20 @@ type vfNet struct {
 	sink      [2]func(raw []byte)       // when set, deliveries to that side go to the sink (puppet)
 	keepRaw   bool
 	dropped   int
+	// direct: packets are handed to the receiving endpoint by a timer goroutine of their own at
+	// the arrival instant instead of by the orchestrator at the next quiescent point, so that
+	// inbound processing really runs in parallel with whatever else wakes at that instant
+	// (C20 only: the run is then no longer a function of the scenario)
+	direct bool
+	// onArrive: called (by whoever delivers) just before a packet is handed to side `to`
+	onArrive func(to int)
+}
+
+func (n *vfNet) setDirect(delay time.Duration) {
+	n.mu.Lock()
+	n.direct = true
+	n.baseDelay = [2]time.Duration{delay, delay}
+	n.mu.Unlock()
 }
 
 func newVfNet(o *vfOrch) *vfNet {
@@ -479,18 +493,23 @@ func (n *vfNet) transmit(side, idx int, p []byte) {
 	wi := len(n.wire)
 	n.wire = append(n.wire, ev)
 	fate := ev.Fate
+	direct := n.direct
+	d := n.baseDelay[side] + fate.Delay
 	n.mu.Unlock()
 	if fate.Drop {
 		return
 	}
-	d := n.baseDelay[side] + fate.Delay
-	n.deliverAt(1-side, b, wi, d)
+	n.deliverAt(1-side, b, wi, d, direct)
 	for k := 0; k < fate.Dup; k++ {
-		n.deliverAt(1-side, b, wi, d+time.Duration(k+1)*731*time.Microsecond)
+		n.deliverAt(1-side, b, wi, d+time.Duration(k+1)*731*time.Microsecond, direct)
 	}
 }
 
-func (n *vfNet) deliverAt(to int, b []byte, wi int, d time.Duration) {
+func (n *vfNet) deliverAt(to int, b []byte, wi int, d time.Duration, direct bool) {
+	if direct {
+		time.AfterFunc(d, func() { n.deliverNow(to, b, wi) })
+		return
+	}
 	n.o.after(d, func() { n.deliverNow(to, b, wi) })
 }
 
@@ -499,9 +518,14 @@ func (n *vfNet) deliverNow(to int, b []byte, wi int) {
 	n.mu.Lock()
 	n.deliv = append(n.deliv, vfDelivery{T: n.now(), To: to, Wire: wi, Raw: b})
 	sink := n.sink[to]
+	onDeliver := n.onDeliver
+	onArrive := n.onArrive
 	n.mu.Unlock()
-	if n.onDeliver != nil {
-		n.onDeliver(to, b)
+	if onArrive != nil {
+		onArrive(to)
+	}
+	if onDeliver != nil {
+		onDeliver(to, b)
 	}
 	if sink != nil {
 		sink(b)
@@ -516,7 +540,9 @@ func (n *vfNet) deliverNow(to int, b []byte, wi int) {
 	select {
 	case c.in <- b:
 	default:
+		n.mu.Lock()
 		n.dropped++
+		n.mu.Unlock()
 	}
 }
 
